@@ -18,9 +18,11 @@
 /* the library ends its listener with Socket_destroy((Socket) serverSocket): give it room for a socket struct
    (simhal's own TcpServerSocket_create is renamed away by the build, see pylib/props/c18.py) */
 static void* listeners[64]; static int nlisteners = 0;
+static int fail_listen = 0;     /* failstart=1: the next TcpServerSocket_create fails (port in use) */
 ServerSocket TcpServerSocket_create(const char* address, int port)
 {
     (void) address; (void) port;
+    if (fail_listen) { fail_listen = 0; return NULL; }
     void* p = calloc(1, sizeof(struct sSocket) + 64);
     if (nlisteners < 64) listeners[nlisteners++] = p;
     return p;
@@ -77,7 +79,7 @@ static int used_slots(void)
 
 int main(void)
 {
-    int mode = 0, conns = 1, startdt = 0, rounds = 1, maxconn = 0, late = 0, pre = 0, swtch = 0;
+    int mode = 0, conns = 1, startdt = 0, rounds = 1, maxconn = 0, late = 0, pre = 0, swtch = 0, failstart = 0;
     char line[256];
     setvbuf(stdout, NULL, _IOLBF, 0);
     if (!fgets(line, sizeof line, stdin)) return 0;
@@ -86,7 +88,7 @@ int main(void)
         if (sscanf(t, "%31[^=]=%d", k, &v) != 2) continue;
         if (!strcmp(k, "mode")) mode = v; else if (!strcmp(k, "conns")) conns = v; else if (!strcmp(k, "startdt")) startdt = v;
         else if (!strcmp(k, "rounds")) rounds = v; else if (!strcmp(k, "maxconn")) maxconn = v;
-        else if (!strcmp(k, "deny")) deny = v; else if (!strcmp(k, "late")) late = v; else if (!strcmp(k, "pre")) pre = v; else if (!strcmp(k, "switch")) swtch = v;
+        else if (!strcmp(k, "deny")) deny = v; else if (!strcmp(k, "late")) late = v; else if (!strcmp(k, "pre")) pre = v; else if (!strcmp(k, "switch")) swtch = v; else if (!strcmp(k, "failstart")) failstart = v;
     }
     signal(SIGALRM, on_alarm); alarm(60);
     Sim_setTime(1000000);
@@ -98,6 +100,14 @@ int main(void)
     int limit = maxconn > 0 ? maxconn : CONFIG_CS104_MAX_CLIENT_CONNECTIONS;
     static const uint8_t STARTDT_ACT[6] = {0x68, 4, 7, 0, 0, 0};
 
+    if (failstart) {
+        /* failstart=1: a start that fails (the listening socket cannot be created); with rounds=0 the server is destroyed right after,
+           without a stop: every resource of the failed start is released all the same (LeakSanitizer) */
+        fail_listen = 1;
+        CS104_Slave_start(slave);
+        if (CS104_Slave_isRunning(slave)) printf("bad running-after-failed-start the server reports running although its listening socket could not be created\n");
+        if (CS104_Slave_getOpenConnections(slave) != 0) printf("bad open-count %d open connections reported after a failed start\n", CS104_Slave_getOpenConnections(slave));
+    }
     if (pre) {
         /* pre=1: the same server object is first run in THREADLESS mode (start, a peer connects, a few ticks, stop) and only then
            started with its own threads: starting, stopping in any order and any number of times */
